@@ -252,6 +252,19 @@ def prop_walk(case):
 # (c) Monte-Carlo configurations
 # ---------------------------------------------------------------------------
 
+def falsy_labels(c, k):
+    """every other weighted Monte-Carlo configuration stores its weights under the attribute name '' (legal, but falsy)"""
+    gc = dict(c['gc'])
+    if k % 2 == 0 and c.get('ew') is not None:
+        gc['ew'] = {'': list(gc['ew'].values())[0]}
+        c['ew'] = ''
+    elif c.get('nw') is not None:
+        gc['nw'] = {'': list(gc['nw'].values())[0]}
+        c['nw'] = ''
+    c['gc'] = gc
+    return c
+
+
 def _g(n, edges, ew=None, nw=None):
     return {'nodes': list(range(n)), 'edges': [list(e) for e in edges],
             'ew': {'w': ew} if ew else None, 'nw': {'rw': nw} if nw else None}
@@ -289,7 +302,7 @@ def mc_configs(sims, thorough=False):
     out = []
     for sim in sims:
         for b in base:
-            c = dict(b)
+            c = falsy_labels(dict(b), len(out))
             c['sim'] = sim
             c['tmin'] = [0, -5.0, 3.5][len(out) % 3]
             g = c['gamma'] if c['gamma'] > 0 else 1.0
